@@ -333,11 +333,13 @@ func (s *Sim) serverUnaryInt(layer string) grpc.UnaryServerInterceptor {
 		}
 		s.instant(id, 'h', 0, "int-enter", func(e *Event) {
 			e.Note = layer
-			e.Flags = map[string]string{"method": info.FullMethod}
+			e.Flags = map[string]string{"method": info.FullMethod, "sees": strings.Join(layerMarks(ctx), ",")}
 			if m, ok := req.(proto.Message); ok {
 				e.Got = digestMsg(m)
 			}
 		})
+		// onward with a context of its own making
+		ctx = withLayerMark(ctx, layer)
 		resp, err := handler(ctx, req)
 		s.instant(id, 'h', 0, "int-exit", func(e *Event) {
 			e.Note = layer
@@ -371,8 +373,10 @@ func (s *Sim) serverStreamInt(layer string) grpc.StreamServerInterceptor {
 		}
 		s.instant(id, 'h', 0, "int-enter", func(e *Event) {
 			e.Note = layer
-			e.Flags = map[string]string{"method": info.FullMethod, "cs": fmt.Sprint(info.IsClientStream), "ss": fmt.Sprint(info.IsServerStream)}
+			e.Flags = map[string]string{"method": info.FullMethod, "cs": fmt.Sprint(info.IsClientStream), "ss": fmt.Sprint(info.IsServerStream), "sees": strings.Join(layerMarks(ss.Context()), ",")}
 		})
+		// onward with a stream whose context is of its own making
+		ss = &markedStream{ServerStream: ss, ctx: withLayerMark(ss.Context(), layer)}
 		err := handler(srv, ss)
 		s.instant(id, 'h', 0, "int-exit", func(e *Event) {
 			e.Note = layer
@@ -381,6 +385,24 @@ func (s *Sim) serverStreamInt(layer string) grpc.StreamServerInterceptor {
 		return err
 	}
 }
+
+type layerMarkKey struct{}
+
+func layerMarks(ctx context.Context) []string {
+	m, _ := ctx.Value(layerMarkKey{}).([]string)
+	return m
+}
+
+func withLayerMark(ctx context.Context, layer string) context.Context {
+	return context.WithValue(ctx, layerMarkKey{}, append(append([]string{}, layerMarks(ctx)...), layer))
+}
+
+type markedStream struct {
+	grpc.ServerStream
+	ctx context.Context
+}
+
+func (m *markedStream) Context() context.Context { return m.ctx }
 
 const scribbledMethod = "/scribbled.by.an.earlier.call/"
 
